@@ -64,6 +64,8 @@ def run_models(tier, workers_each, sim):
                       dict(coverage=(tier == "thorough")))}
     for k in ASIS:
         jobs["asis_" + k] = (f"DapWire_asis_{k}.cfg", {})
+    if tier == "thorough":
+        jobs["fixed_full"] = ("DapWire_fixed_full.cfg", {})     # 3 requests, full universe, 2 lines per forwarder
     if FAST:
         del jobs["fixed"]
     res = {}
@@ -286,7 +288,7 @@ def validate(sessions, workdir, tag, stats):
                 rows.append(e)
                 owner.append(sid)
         vlib.ndjson_write(path, rows)
-        res, r = tlc_trace(path, "TraceDap_model.cfg", f"c12-V-{tag}-{rounds}")
+        res, r = tlc_trace(path, os.environ.get("C12_TRACE_CFG", "TraceDap_model.cfg"), f"c12-V-{tag}-{rounds}")
         stats["tlc_trace_runs"] += 1
         stats["trace_states"] += r.distinct
         consumed = res["consumed"]
@@ -414,7 +416,7 @@ def run(rep, tier, replay):
     else:
         with cf.ThreadPoolExecutor(max_workers=2) as ex:
             fb = ex.submit(vlib.cargo_build, "c12")
-            nsim, ncover = (400, 32) if tier == "quick" else (4000, 260)
+            nsim, ncover = (300, 24) if tier == "quick" else (4000, 200)
             if FAST:
                 nsim, ncover = 40, 4
             fm = ex.submit(run_models, tier, 4 if tier == "quick" else 6, (nsim, 400, vlib.seed()))
@@ -425,6 +427,10 @@ def run(rep, tier, replay):
             models["fixed"].violated = None
         fixed = models["fixed"]
         vlib.tlc_expect_ok(fixed, "DapWire fixed (E)")
+        if "fixed_full" in models:
+            vlib.tlc_expect_ok(models["fixed_full"], "DapWire fixed full (E)")
+            if models["fixed_full"].violated:
+                raise vlib.ToolError(f"the repaired model (full) violates {models['fixed_full'].violated}")
         if fixed.violated:
             raise vlib.ToolError(f"the repaired model violates {fixed.violated}: model/reference inconsistent\n"
                                  + fixed.out[-1500:])
@@ -459,7 +465,7 @@ def run(rep, tier, replay):
 
     # ---- run the real adapter ----
     results = {}
-    with cf.ThreadPoolExecutor(max_workers=6 if DEV else 8) as ex:
+    with cf.ThreadPoolExecutor(max_workers=6) as ex:
         futs = [ex.submit(run_session, exe, s, work, puppet) for s in scripts]
         for f in futs:
             sid, status, ev = f.result()
